@@ -19,16 +19,19 @@ Definition cfg1 (lower : Q) (periodic : bool) (apply : bool) (same : bool) (sub 
   @mkCfg Q 1%nat [lower] [1] [2%Z] [periodic] 2 1 apply true false [0] false same [sub].
 
 (* W1: subtractAppliedForce, lagged forces.  Step 0: value 1/2, engine force -1, a restraint applies +1:
-   the measured total force is exactly 0 and colvar.cpp skips `ft -= f_old`.  The sample recorded at
-   step 1 for bin [0] is 0; the attributed sample is (-1 + 1) - 1 = -1, so minus the sum should be 1. *)
+   the measured total force is exactly 0 and colvar.cpp skips `ft -= f_old`: the sample recorded at
+   step 1 for bin [0] is 0 instead of (-1 + 1) - 1 = -1.  Step 1 (engine force 2) gives the sample 2.
+   Stored sum -(0 + 2) = -2; minus the attributed samples is -(-1 + 2) = -1.
+   (Same scenario as witness_zero_total() in props/C04/check.py.) *)
 Definition w1_cfg := cfg1 0 false false false true.
-Definition w1_hist : list (@abf_in Q) := [@mkIn Q [1#2] [-(1)] [1] false; @mkIn Q [1#2] [0] [0] false].
+Definition w1_hist : list (@abf_in Q) :=
+  [@mkIn Q [1#2] [-(1)] [1] false; @mkIn Q [1#2] [2#1] [1] false; @mkIn Q [1#2] [2#1] [1] false].
 
 (* W2: lagged forces, value exactly 0 at step 0 while a restraint applies +1 and the engine force is 1:
    colvar::communicate_forces drops the applied force (integer_power(0,0) = 0), the engine measures 1,
    the sample recorded for bin [1] is 1; the attributed sample is (1 + 1) - 0 = 2. *)
 Definition w2_cfg := cfg1 (-(1)) false false false false.
-Definition w2_hist : list (@abf_in Q) := [@mkIn Q [0] [1] [1] false; @mkIn Q [1#2] [0] [0] false].
+Definition w2_hist : list (@abf_in Q) := [@mkIn Q [0] [1] [1] false; @mkIn Q [1#2] [0] [1#2] false].
 
 (* W3: one periodic variable, 2 bins, minSamples 1, fullSamples 2, same-step forces; one sample of
    force 2 in bin [0].  The force that calc_biasing_force gives is 1 in bin [0] (below the ramp) and 1
@@ -48,9 +51,9 @@ Definition spec_cnt (c : @abf_cfg Q) (h : list (@abf_in Q)) (b : idx) : Z :=
   cnt_of b (attributed Qops c (trace_of Qops c h)).
 
 Lemma w1_refutes :
-  stored_cnt w1_cfg w1_hist [0%Z] = 1%Z /\ spec_cnt w1_cfg w1_hist [0%Z] = 1%Z /\
-  Qeq_bool (stored_sum w1_cfg w1_hist [0%Z] 0) 0 = true /\
-  Qeq_bool (spec_sum w1_cfg w1_hist [0%Z] 0) 1 = true.
+  stored_cnt w1_cfg w1_hist [0%Z] = 2%Z /\ spec_cnt w1_cfg w1_hist [0%Z] = 2%Z /\
+  Qeq_bool (stored_sum w1_cfg w1_hist [0%Z] 0) (-(2#1)) = true /\
+  Qeq_bool (spec_sum w1_cfg w1_hist [0%Z] 0) (-(1)) = true.
 Proof. vm_compute. repeat split; reflexivity. Qed.
 
 Lemma w2_refutes :
